@@ -89,6 +89,17 @@ def goal_specs(sysd, env):
                 g.add_soft_clause(f, w)
             return g
         out.append((mk, {"kind": "maxsmt", "terms": [], "signed": False, "soft": [{"f": f, "w": w} for f, w in sysd["soft"]]}))
+
+        def mk_extended():
+            # a goal object that was already asked for its objective (as a first optimisation does) and extended afterwards
+            g = MaxSMTGoal(real_weights=False)
+            for f, w in sysd["soft"][:2]:
+                g.add_soft_clause(f, w)
+            g.term()
+            for f, w in sysd["soft"][2:]:
+                g.add_soft_clause(f, w)
+            return g
+        out.append((mk_extended, {"kind": "maxsmt", "terms": [], "signed": False, "soft": [{"f": f, "w": w} for f, w in sysd["soft"]]}))
     return out
 
 
